@@ -553,3 +553,74 @@ def sg5(P, C):
     rets = [i for i in N.walk(N.nodes[outer]["body"]) if N.k(i) in ("ReturnStmt", "GotoStmt")]
     C.ob("SG-5", "nnls_normal_block3", "single-exit", not rets, N.loc(rets[0]) if rets else N.loc(outer),
          "the outer loop is left only through the convergence exit or the iteration cap")
+
+
+def ls1(P, C):
+    """LS-1: the line search only tries step lengths strictly inside (0, 1), besides the reference 0 and the full step 1."""
+    C.rule("LS-1", "walk_descents builds its list of trial step lengths as [0 (reference), 1 (full step), candidates...]; a candidate — the "
+           "fraction of the step at which a coordinate reaches 0 — is admitted only when it is strictly inside (0, 1): the counter of the list "
+           "advances only under `candidate < 1 && candidate > 0`.  The last element of the list is accepted without comparison, so a "
+           "candidate 0 (a coordinate already at 0 that wants to go negative) would make the line search return the point it started from "
+           "and the outer loop repeat the same solve forever", floor=2)
+    W = P.one("walk_descents", file_endswith="cholesky_solve.c")
+    # the list: a local pointer A with A[0] = 0 and A[1] = 1
+    lit = {}
+    for x in W.walk():
+        ap = ts.assign_parts(W, x)
+        if ap and ap[1] is not None and W.nodes[x].get("op") == "=" and W.k(W.strip(ap[0])) == "ArraySubscriptExpr":
+            sub = W.nodes[W.strip(ap[0])]
+            b, idx = W.strip(sub["ch"][0]), W.strip(sub["ch"][1])
+            if W.k(b) == "DeclRefExpr" and W.nodes[idx].get("cv") in (0, 1) and W.nodes[W.strip(ap[1])].get("cv") == W.nodes[idx].get("cv"):
+                lit.setdefault(W.nodes[b]["decl"]["id"], set()).add(W.nodes[idx]["cv"])
+    lists = [a for a, v in lit.items() if v == {0, 1}]
+    if len(lists) != 1:
+        raise core.AnalysisBroken("LS-1: list of step lengths (A[0] = 0, A[1] = 1) not found in walk_descents")
+    A = lists[0]
+    # the counter: the variable that indexes A in a store whose index is a plain variable
+    cnt = None
+    stores = []
+    for x in W.walk():
+        ap = ts.assign_parts(W, x)
+        if ap and ap[1] is not None and W.k(W.strip(ap[0])) == "ArraySubscriptExpr":
+            sub = W.nodes[W.strip(ap[0])]
+            b = W.strip(sub["ch"][0])
+            if W.k(b) == "DeclRefExpr" and W.nodes[b]["decl"]["id"] == A and "cv" not in W.nodes[W.strip(sub["ch"][1])]:
+                stores.append(x)
+                vs = [y for y in W.walk(sub["ch"][1]) if W.k(y) == "DeclRefExpr" and W.nodes[y]["decl"].get("kind") == "Var"]
+                if vs:
+                    cnt = W.nodes[vs[0]]["decl"]["id"]
+    if cnt is None or not stores:
+        raise core.AnalysisBroken("LS-1: no store of a candidate step length found")
+    loop = next((a for a in W.ancestors(stores[0]) if W.k(a) == "ForStmt"), None)
+    incs = [x for x in (W.walk(loop) if loop is not None else []) if W.k(x) in ("UnaryOperator", "CompoundAssignOperator") and W.nodes[x].get("op") in ("++", "+=") and
+            W.k(W.strip(W.nodes[x]["ch"][0])) == "DeclRefExpr" and W.nodes[W.strip(W.nodes[x]["ch"][0])]["decl"]["id"] == cnt]
+    C.ob("LS-1", "walk_descents", "candidates-counted", len(incs) >= 1, W.loc(stores[0]), "%d place(s) admit a candidate into the list" % len(incs))
+
+    def is_slot(x):
+        x = W.strip(x)
+        if W.k(x) != "ArraySubscriptExpr":
+            return False
+        b, idx = W.strip(W.nodes[x]["ch"][0]), W.strip(W.nodes[x]["ch"][1])
+        return W.k(b) == "DeclRefExpr" and W.nodes[b]["decl"]["id"] == A and W.k(idx) == "DeclRefExpr" and W.nodes[idx]["decl"]["id"] == cnt
+    for x in incs:
+        below1 = above0 = False
+        prev = x
+        for a in W.ancestors(x):
+            if a == loop:
+                break
+            if W.k(a) == "IfStmt" and (W.nodes[a].get("then") == prev or prev in set(W.walk(W.nodes[a]["then"]))):
+                conn, leaves = core.cond_leaves(W, W.nodes[a]["cond"])
+                if conn in ("&&", "leaf"):
+                    for lf in leaves:
+                        orr = W.oriented(lf, is_slot)
+                        if orr and orr[1] == "<" and W.nodes[orr[2]].get("cv") == 1:
+                            below1 = True
+                        if orr and orr[1] == ">" and W.nodes[orr[2]].get("cv") == 0:
+                            above0 = True
+            prev = a
+        ok = below1 and above0
+        C.ob("LS-1", "walk_descents", "admitted-only-inside-(0,1)@%d" % W.nodes[x]["loc"][0], ok, W.loc(x),
+             "the counter advances under candidate < 1 (%s) and candidate > 0 (%s)" % (below1, above0) if ok else
+             "a candidate step length is admitted without %s: a coordinate that is exactly 0 and wants to decrease gives the candidate 0, which as "
+             "the last (unconditionally accepted) element of the list returns the starting point, and nnls_normal_block3 repeats the same solve "
+             "forever" % " and ".join(t for t, v in (("`< 1`", below1), ("`> 0`", above0)) if not v))
